@@ -138,15 +138,16 @@ TranslateModel(F, R, tx, ty, hr, wrapdev) ==
 
 -----------------------------------------------------------------------------
 (* scope *)
-S5  == {MinW, -1, 0, ONE, MaxW} \cup (IF Wide THEN {-5, 1} ELSE {})
+S5  == {MinW, -1, 0, ONE, MaxW} \cup (IF Wide THEN {-5} ELSE {})
 S7  == {MinW, -5, -1, 0, 1, ONE, MaxW}
-S7z == S7 \cup {2 * ONE} \cup (IF Wide THEN {-ONE, 2, 3, -2 * ONE} ELSE {})
-Sz  == {MinW, -1, 1, ONE, 2 * ONE, MaxW} \cup (IF Wide THEN S7z ELSE {})
-Sg  == {0, 1, MinW} \cup (IF Wide THEN {-1, MaxW} ELSE {})
-Si  == {MinW, -1, 0, 1, ONE, MaxW} \cup (IF Wide THEN {2 * ONE, -ONE} ELSE {})
+S7z == S7 \cup {2 * ONE} \cup (IF Wide THEN {-ONE, 3} ELSE {})
+Sz  == {MinW, -1, 1, ONE, 2 * ONE, MaxW} \cup (IF Wide THEN {0, -5} ELSE {})
+Sg  == {0, 1, MinW} \cup (IF Wide THEN {-1} ELSE {})
+Si  == {MinW, -1, 0, 1, ONE, MaxW} \cup (IF Wide THEN {2 * ONE} ELSE {})
 Sq  == {-ONE, 0, 1, ONE, 2 * ONE} \cup (IF Wide THEN {2} ELSE {})
 Words == MinW..MaxW
-SomeWords == (MinW..(MinW + 5)) \cup (-4..4) \cup ((MaxW - 16)..MaxW) \cup (IF Wide THEN Words ELSE {})
+SomeWords == IF Wide THEN (MinW..(MinW + 12)) \cup (-9..9) \cup ((MaxW - 24)..MaxW)
+             ELSE (MinW..(MinW + 5)) \cup (-4..4) \cup ((MaxW - 16)..MaxW)
 
 \* parameter tuples: pa is chosen in the initial state, pb in the single step (worker parallelism)
 DomA(f) ==
